@@ -36,35 +36,41 @@ THEOREMS = [NS + n for n in (
     "C07_first_at_zero",
     "C07_shards_partition",
     "C07_shard_limit",
-    "C07_shards_partition_st",
-    "C07_shard_limit_st",
-    "C07_D62_witness",
     "C07_readback",
     "C07_readback_layout",
-    "C07_image_order_independent",
-    "C07_filename_inj",
-    "C07_filename_parts",
-    "C07_threshold",
-    "C07_threshold_st",
-    "C07_placement_shard",
+    "C07_shards_partition_st",
+    "C07_shard_limit_st",
     "C07_model_restored",
-    "C07_mid_is_repointed",
+    "C07_image_order_independent",
     "C07_roundtrip",
     "C07_dataFiles_schedule",
     "C07_filename_dir",
+    "C07_filename_inj",
+    "C07_filename_ne_base",
+    "C07_filename_parts",
+    "C07_threshold",
+    "C07_threshold_st",
+    "C07_roundtrip_value",
+    "C07_serialize_sees_unloaded",
+    "C07_placement_shard",
 )]
 ASSUMPTIONS = [
     "tensor.nbytes == len(tensor.tobytes()) for every written tensor (C04); a LazyTensor whose function "
     "returns a tensor of another size than declared is outside the statement",
-    "initializer value name == tensor name and names are unique per graph (serde writes tensor names); "
-    "external_data paths are relative and already normalised (os.path.normpath / absolute-path rejection are "
-    "exercised but not modelled; path algebra is C10's model)",
+    "initializer names are unique per graph (and across graphs for safetensors, which rejects duplicates up front); "
+    "the tensor's own name is free: unnamed, differently named and shared tensor objects are generated on both backends",
+    "external_data paths: os.path.normpath of the recorded location is Python's (the model works on the path as "
+    "given and the harness normalises the model's answer); un-normalised relative paths and the rejection of an "
+    "absolute path are generated; the path algebra itself is C10's model",
     "name, dtype and shape of an initializer survive the proto round trip: checked on every case (differential), "
     "proved in C02/C03, not here",
-    "safetensors file layout (header, ordering inside the file) is the library's: only shard assignment, names, "
-    "lengths, non-overlap and payload bytes are checked for that backend",
+    "safetensors: the layout inside a file (header, order, offsets) is the library's; there is NO read-back theorem "
+    "for that backend (placeSt records offset 0) - shard assignment, names, lengths, classification and restore are "
+    "modelled and proved, non-overlap / within-file / payload bytes are checked by the oracle on every case",
     "file system: seek past EOF leaves a hole that reads as zeros; os.replace is atomic (C08); thread schedules "
     "of the parallel writer are modelled as an arbitrary order of the writes (the protocol itself is C09)",
+    "the restore loop cannot raise (Value.const_value is a plain attribute store of an object that was there "
+    "before); exceptions are modelled at the validation, load-to-memory, write, serialization and proto-save points",
     "POSIX path semantics (posixpath.split/splitext/join) for shard names",
 ]
 
@@ -167,7 +173,8 @@ def build_tensor(spec: dict, data: bytes, tmp: str, counters: dict):
     from onnx_ir import serde
 
     dt = ir.DataType[spec["dtype"]]
-    name = spec["name"]
+    # the tensor's own name: the value name unless the case says otherwise (None = unnamed tensor)
+    name = spec["tname"] if "tname" in spec else spec["name"]
     kind = spec["kind"]
     shape = ir.Shape(spec["shape"])
     if kind == "mem":
@@ -180,16 +187,18 @@ def build_tensor(spec: dict, data: bytes, tmp: str, counters: dict):
         return ir.LazyTensor(fn, dtype=dt, shape=shape, cache=(kind == "lazyc"), name=name)
     if kind == "lazy_raises":
         def bad():
+            if "values" in counters and "at_fail" not in counters:
+                counters["at_fail"] = [v.const_value for v in counters["values"]]
             raise RuntimeError("injected: lazy tensor cannot be materialised")
 
         return ir.LazyTensor(bad, dtype=dt, shape=shape, name=name)
     if kind == "packed":
         return ir.PackedTensor(np.frombuffer(data, dtype=np.uint8).copy(), dt, shape=shape, name=name)
     if kind == "proto":
-        tp = onnx.TensorProto(name=name, data_type=dt.value, dims=spec["shape"], raw_data=data)
+        tp = onnx.TensorProto(name=name or "", data_type=dt.value, dims=spec["shape"], raw_data=data)
         return serde.deserialize_tensor(tp)
     if kind == "proto_typed":
-        tp = onnx.TensorProto(name=name, data_type=dt.value, dims=spec["shape"])
+        tp = onnx.TensorProto(name=name or "", data_type=dt.value, dims=spec["shape"])
         arr = np.frombuffer(data, dtype=dt.numpy())
         if spec["dtype"] == "INT64":
             tp.int64_data.extend(int(x) for x in arr)
@@ -201,6 +210,7 @@ def build_tensor(spec: dict, data: bytes, tmp: str, counters: dict):
             tp.int32_data.extend(int(x) for x in arr)
         return serde.deserialize_tensor(tp)
     if kind in ("ext_same", "ext_other", "ext_missing"):
+        name = name or "unnamed"  # ExternalTensor requires a name
         loc = spec["loc"]
         path = os.path.join(tmp, loc)
         pre = spec.get("pre", 0)
@@ -305,8 +315,18 @@ def run_case(case: dict) -> dict:
     logging.getLogger("onnx_ir").setLevel(logging.ERROR)
     res = {"case": case, "fails": [], "reqs": [], "impl": [], "what": [], "info": {}}
 
+    specs_ = case["tensors"]
+    trigger = ""
+    if case["backend"] == "st":
+        # inputs on which the safetensors backend keyed entries by tensor.name (D163/D164): every oracle
+        # failure on such an input carries the trigger in its signature
+        if any("tname" in s and s["tname"] != s["name"] for s in specs_):
+            trigger = "st-name-mismatch:"
+        elif any(s.get("dup_of") is not None and s["name"] != specs_[s["dup_of"]]["name"] for s in specs_):
+            trigger = "st-shared-tensor:"
+
     def fail(sig, what, **extra):
-        res["fails"].append({"signature": sig, "what": what, "case": {**case, **extra}})
+        res["fails"].append({"signature": trigger + sig, "what": what, "case": {**case, **extra}})
 
     backend = case["backend"]
     cwd0 = os.getcwd()
@@ -321,7 +341,7 @@ def _run_case_in(case: dict, res: dict, fail, backend: str) -> dict:
     import onnx_ir as ir
     from onnx_ir import serde
 
-    with tempfile.TemporaryDirectory(prefix="c07-") as tmp:
+    with tempfile.TemporaryDirectory(prefix="c07-", dir=_run_dir()) as tmp:
         counters: dict = {}
         specs = case["tensors"]
         dest = os.path.join(tmp, case["dest"])
@@ -331,8 +351,11 @@ def _run_case_in(case: dict, res: dict, fail, backend: str) -> dict:
         os.makedirs(os.path.dirname(dest) or ".", exist_ok=True)
         base_dir = os.path.dirname(dest)
         rel = case.get("ext")
-        if rel:
-            os.makedirs(os.path.dirname(os.path.join(base_dir, rel)) or ".", exist_ok=True)
+        if rel and not os.path.isabs(rel):
+            cur = base_dir or "."
+            for part in rel.split("/")[:-1]:
+                cur = os.path.normpath(os.path.join(cur, part))
+                os.makedirs(cur, exist_ok=True)
         # pre-existing external tensors live next to the destination, like those of a loaded model
         model, decl, tensors, datas = build_model(case, base_dir, counters)
         for pre in case.get("preexisting", []):
@@ -340,6 +363,7 @@ def _run_case_in(case: dict, res: dict, fail, backend: str) -> dict:
                 f.write(b"old")
         values = [v for _, v, _ in decl]
         before = [v.const_value for v in values]
+        counters["values"] = values
         # canonical tensor ids: first position at which the object occurs
         tid = {}
         for k, t in enumerate(before):
@@ -378,7 +402,34 @@ def _run_case_in(case: dict, res: dict, fail, backend: str) -> dict:
         if case.get("callback"):
             kwargs["callback"] = lambda t, info: cb_log.append((id(t), info.total, info.index, info.offset, info.filename))
         raised = None
+        from onnx_ir import _core as ir_core
+        from onnx_ir import external_data as ed
+
+        orig_to_mem = ed._external_tensor_to_memory_tensor
+
+        def to_mem_spy(t):
+            try:
+                return orig_to_mem(t)
+            except BaseException:
+                counters.setdefault("at_fail", [v.const_value for v in values])
+                raise
+
+        orig_chunk, orig_cfr = ir_core._EXTERNAL_TENSOR_COPY_CHUNK_SIZE, getattr(os, "copy_file_range", None)
+        if case.get("chunk"):
+            # force the portable chunked copy of ExternalTensor.tofile with a tiny chunk size
+            import errno
+
+            def no_cfr(*a, **kw):
+                raise OSError(errno.EXDEV, "injected: cross-device copy_file_range")
+
+            ir_core._EXTERNAL_TENSOR_COPY_CHUNK_SIZE = case["chunk"]
+            if orig_cfr is not None:
+                os.copy_file_range = no_cfr
+        # the schedule handed to the model must cover every write of a file
+        if case.get("sched") is not None and len(case["sched"]) < len(values):
+            case = dict(case, sched=list(case["sched"]) + [i for i in range(len(values)) if i not in case["sched"]])
         serde.serialize_model = spy
+        ed._external_tensor_to_memory_tensor = to_mem_spy
         try:
             if backend == "raw":
                 ir.save(model, dest, **kwargs)
@@ -388,6 +439,10 @@ def _run_case_in(case: dict, res: dict, fail, backend: str) -> dict:
             raised = e
         finally:
             serde.serialize_model = orig_serialize
+            ed._external_tensor_to_memory_tensor = orig_to_mem
+            ir_core._EXTERNAL_TENSOR_COPY_CHUNK_SIZE = orig_chunk
+            if orig_cfr is not None:
+                os.copy_file_range = orig_cfr
         res["info"]["raised"] = type(raised).__name__ if raised else None
 
         # ---- oracle 1: the model object holds the same tensor objects afterwards (both outcomes)
@@ -411,12 +466,22 @@ def _run_case_in(case: dict, res: dict, fail, backend: str) -> dict:
                     out.append([k, 1000 + k])
             return out
 
-        # ---- correspondence: saveStore (restore-in-finally)
-        phase = {None: "none", "lazy_raises": "unload", "validate": "unload", "exists": "unload",
-                 "missing_ext": "unload", "early": "early", "dup_name": "early", "serialize": "serialize",
-                 "small_lazy_raises": "serialize", "format": "protoSave"}[expect_fail]
-        if backend == "st" and expect_fail == "small_lazy_raises":
-            phase = "serialize"
+        # ---- where the injected failure surfaces, as a point of the model's effect sequence
+        def is_mem_class(k):
+            t = before[k]
+            if t is None or specs[decl[k][2]]["kind"] == "str" or not isinstance(t, ir.ExternalTensor):
+                return False
+            return nbytes[k] < case["thr"] if backend == "st" else nbytes[k] <= case["thr"]
+
+        occ = 0
+        if expect_fail == "missing_ext":
+            kmiss = next(k for k in range(len(values)) if specs[decl[k][2]]["kind"] == "ext_missing")
+            occ = sum(1 for k in range(kmiss) if is_mem_class(k))
+        phase = {None: "none", "lazy_raises": "write", "validate": "validate", "exists": "validate",
+                 "missing_ext": "loadMem", "early": "early", "dup_name": "early", "abs_path": "early",
+                 "serialize": "serialize", "small_lazy_raises": "serialize", "format": "protoSave"}[expect_fail]
+        if expect_fail == "exists":
+            occ = 1  # the second validation point: the sharded writer's pre-flight check
         res["info"]["phase"] = phase
 
         def mid_kind(k):
@@ -438,6 +503,21 @@ def _run_case_in(case: dict, res: dict, fail, backend: str) -> dict:
                          f"external tensor of {nbytes[k]} bytes (threshold {case['thr']}) is serialized still external",
                          tensor=specs[decl[k][2]])
                     break
+        # ---- oracle 1d (on what serialization saw): every tensor above the threshold is a new external tensor
+        # recording its own length and dtype (also when the save fails afterwards)
+        if mid is not None:
+            for k, t in enumerate(before):
+                si = decl[k][2]
+                if t is None or specs[si]["kind"] == "str":
+                    continue
+                want = nbytes[k] >= case["thr"] if backend == "st" else nbytes[k] > case["thr"]
+                m_ = mid[k]
+                if want and not (m_ is not t and isinstance(m_, ir.ExternalTensor) and m_.length == nbytes[k]
+                                 and m_.dtype == t.dtype and list(m_.shape.numpy()) == list(t.shape.numpy())):
+                    fail(f"serialized-state:{backend}:above-threshold-not-its-own-external-tensor",
+                         f"initializer {k} ({nbytes[k]} bytes, threshold {case['thr']}) is serialized as {m_!r}",
+                         tensor=specs[si])
+                    break
         # ---- oracle 1c (on what serialization saw): shard limit, also when the save fails later on
         if mid is not None and case["max"] is not None:
             groups: dict[str, list] = {}
@@ -454,8 +534,12 @@ def _run_case_in(case: dict, res: dict, fail, backend: str) -> dict:
                     break
         if raised is not None and expect_fail is None:
             m = re.search(r'Unknown dtype "(\w+)"', str(raised))
+            mismatch = any(("tname" in specs[i] and specs[i]["tname"] != specs[i]["name"]) or
+                           (specs[i].get("dup_of") is not None and specs[i]["name"] != specs[specs[i]["dup_of"]]["name"])
+                           for _, _, i in decl)
             why = ("unknown-dtype-" + m.group(1)) if m else (
-                "string-initializer" if any(specs[i]["kind"] == "str" for _, _, i in decl) else "other")
+                "string-initializer" if any(specs[i]["kind"] == "str" for _, _, i in decl) else
+                "name-mismatch" if mismatch and isinstance(raised, AssertionError) else "other")
             fail(f"save-raises:{backend}:{type(raised).__name__}:{why}", f"save raised {type(raised).__name__}: {raised}")
             return res
         if raised is None and expect_fail is not None:
@@ -490,18 +574,37 @@ def _run_case_in(case: dict, res: dict, fail, backend: str) -> dict:
             impl["files"] = [[loc, _hex(files[loc])] for loc in locs]
             if not locs and os.path.exists(os.path.join(base_dir, rel)):
                 # nothing was externalised: the code still writes an empty data file
-                impl["files"] = [[rel, _hex(open(os.path.join(base_dir, rel), "rb").read())]]
+                impl["files"] = [[os.path.normpath(rel), _hex(open(os.path.join(base_dir, rel), "rb").read())]]
         if mid is not None:
             res["reqs"].append(req)
             res["impl"].append(impl)
             res["what"].append("save")
-        # restore correspondence: the re-pointing is the one serialization saw (fresh ids)
-        store = canon_store(before)
-        repoint = [[k, 1000 + k] for k in range(len(values)) if mid is not None and mid[k] is not before[k]]
-        res["reqs"].append({"m": "layout.save_store", "store": store, "inits": list(range(len(values))),
-                            "repoint": repoint, "fail": phase})
-        res["impl"].append({"mid": canon_store(mid) if mid is not None else store, "fin": canon_store(after)})
-        res["what"].append("store")
+        # K4: the classification lists on their own (positions that became external / were loaded to memory)
+        if mid is not None:
+            obs_ext = [k for k in range(len(values)) if mid[k] is not before[k] and isinstance(mid[k], ir.ExternalTensor)]
+            obs_mem = [k for k in range(len(values)) if mid[k] is not before[k] and not isinstance(mid[k], ir.ExternalTensor)]
+            flat = [[d["n"], d["e"], d["c"], d["s"]] for d in inits]
+            if backend == "raw":
+                res["reqs"].append({"m": "layout.unload_raw", "inits": flat, "thr": case["thr"], "max": case["max"],
+                                    "al": case["al"], "athr": case["athr"]})
+            else:
+                res["reqs"].append({"m": "layout.split_st", "inits": flat, "thr": case["thr"]})
+            res["impl"].append({"ext": obs_ext, "mem": obs_mem})
+            res["what"].append("classification")
+        # the save as an effect sequence: the model computes the re-pointing itself (fresh id 1000+k for the
+        # object created for position k) from the initializer list; compared with the store observed at the
+        # moment the failure surfaced (or at serialization) and after the call
+        if phase != "early":
+            store = [c[1] for c in canon_store(before)]
+            at_fail = counters.get("at_fail") if raised is not None and phase in ("write", "loadMem") else mid
+            impl_store = {"fin": [c[1] for c in canon_store(after)]}
+            if at_fail is not None:
+                impl_store["mid"] = [c[1] for c in canon_store(at_fail)]
+            res["reqs"].append({"m": "layout.save_run", "backend": backend,
+                                "inits": [[d["n"], d["e"], d["c"], d["s"]] for d in inits], "thr": case["thr"],
+                                "fresh": 1000, "store": store, "phase": phase, "occ": occ})
+            res["impl"].append(impl_store)
+            res["what"].append("store")
 
         if raised is not None:
             # injected failure: destination must not have been produced by a failed unload
@@ -542,8 +645,9 @@ def _run_case_in(case: dict, res: dict, fail, backend: str) -> dict:
             want_ext = nb > thr if backend == "raw" else nb >= thr
             if is_ext != want_ext:
                 was_ext = specs[si]["kind"].startswith("ext_")
+                shared = specs[si].get("dup_of") is not None or any(x.get("dup_of") == si for x in specs)
                 fail(f"threshold:{backend}:{'inline-above' if want_ext else 'external-below'}:"
-                     f"{'already-external' if was_ext else 'in-memory'}",
+                     f"{'shared-tensor' if shared else 'already-external' if was_ext else 'in-memory'}",
                      f"tensor of {nb} bytes with threshold {thr} saved {'external' if is_ext else 'inline'}",
                      tensor=specs[si])
             if is_ext:
@@ -556,6 +660,7 @@ def _run_case_in(case: dict, res: dict, fail, backend: str) -> dict:
             if list(t.dims) != list(specs[si]["shape"]) or t.data_type != ir.DataType[specs[si]["dtype"]].value:
                 fail(f"dtype-shape:{backend}", "dtype/shape changed in the saved proto", tensor=specs[si])
         factor = max(4096, case["al"]) if case.get("al") else None
+        k4_reads: list = []
         for loc, ranges in per_file.items():
             p = os.path.join(base_dir, loc)
             if os.path.isabs(loc) or not os.path.exists(p):
@@ -587,6 +692,19 @@ def _run_case_in(case: dict, res: dict, fail, backend: str) -> dict:
                          tensor=specs[si], loc=loc, off=off)
             if backend == "raw" and size != prev_end:
                 fail("layout:file-size", f"file size {size} != end of last range {prev_end}", loc=loc)
+            if backend == "raw" and size <= 70000 and res["info"].setdefault("k4", 0) < 2:
+                # K4: the file-image model on the offsets the implementation recorded (serial order, and
+                # preallocated + reversed order), against the bytes really on disk
+                res["info"]["k4"] += 1
+                content = open(p, "rb").read()
+                ws = [{"o": off, "b": _hex(datas[decl[k][2]])} for off, ln, k in ranges]
+                res["reqs"].append({"m": "layout.image", "ws": ws, "prealloc": None})
+                res["impl"].append({"r": _hex(content)})
+                res["what"].append("image-serial")
+                res["reqs"].append({"m": "layout.image", "ws": ws[::-1], "prealloc": size})
+                res["impl"].append({"r": _hex(content)})
+                res["what"].append("image-any-order")
+                k4_reads.extend((loc, off, ln, k, _hex(content)) for off, ln, k in ranges[:3])
             if backend == "st":
                 srt = sorted(r[:2] for r in ranges)
                 for (o1, l1), (o2, _l2) in zip(srt, srt[1:]):
@@ -599,10 +717,13 @@ def _run_case_in(case: dict, res: dict, fail, backend: str) -> dict:
                     fail(f"shard-limit:{backend}:{'zero-size-companions' if zero == len(ranges) - 1 else 'several'}",
                          f"shard {loc} holds {len(ranges)} tensors and {payload} bytes > limit {case['max']}",
                          ranges=[r[:2] for r in ranges])
+        # (a shared tensor left inline by the safetensors backend is reported above; shard numbering and the
+        # callback count of that case are consequences of it)
+        shared_bad = False
         # shard names: distinct, same directory, every external tensor in exactly one
-        if case["max"] is not None and per_file:
+        if case["max"] is not None and per_file and not shared_bad:
             names = list(per_file)
-            base = rel if backend == "raw" else req["base"]
+            base = os.path.normpath(rel) if backend == "raw" else req["base"]
             if len(set(names)) != len(names) or any(os.path.dirname(n) != os.path.dirname(base) for n in names):
                 fail(f"shard-names:{backend}", "shard file names collide or leave the directory", names=names)
             if len(names) > 1:
@@ -616,7 +737,7 @@ def _run_case_in(case: dict, res: dict, fail, backend: str) -> dict:
         res["info"]["nfiles"] = len(per_file)
 
         # callbacks: exactly one per externalised tensor
-        if case.get("callback"):
+        if case.get("callback") and not shared_bad:
             n_ext = sum(len(r) for r in per_file.values())
             if len(cb_log) != n_ext or sorted(c[2] for c in cb_log) != list(range(n_ext)):
                 fail(f"callback:{backend}", f"{len(cb_log)} callbacks for {n_ext} external tensors / indices not 0..n-1")
@@ -654,6 +775,12 @@ def _run_case_in(case: dict, res: dict, fail, backend: str) -> dict:
                 got = None
             if got is not None and bytes(got) != datas[si]:
                 fail(f"reload-bytes:{backend}:{s['kind']}", "bytes differ after reload", tensor=s)
+            if got is not None and ext:
+                for loc, off, ln, kk, img in k4_reads:
+                    if kk == k:
+                        res["reqs"].append({"m": "layout.read", "img": img, "off": off, "len": ln})
+                        res["impl"].append({"r": _hex(bytes(got))})
+                        res["what"].append("read")
             try:
                 arr = t.numpy()
                 if _ITEMBITS[s["dtype"]] < 8:
@@ -669,7 +796,51 @@ def _run_case_in(case: dict, res: dict, fail, backend: str) -> dict:
                 fail(f"reload-numpy:{type(e).__name__}:{'external' if ext else 'inline'}:"
                      f"bits{_ITEMBITS[s['dtype']]}:{'empty' if _prod(s['shape']) == 0 else 'nonempty'}",
                      f"numpy() of reloaded tensor raised {type(e).__name__}: {e}", tensor=s)
+        # K5: external_data.load_to_model on the reloaded model: nothing external is left, bytes unchanged
+        arr = got = t = None  # drop our views of the memory maps: load_to_model closes them
+        try:
+            ir.external_data.load_to_model(m2)
+            for (gi, v), k in zip(loaded, dk):
+                s = specs[decl[k][2]]
+                if s["kind"] == "str":
+                    continue
+                t = v.const_value
+                if isinstance(t, ir.ExternalTensor) or bytes(t.tobytes()) != datas[decl[k][2]]:
+                    fail(f"load_to_model:{backend}", "load_to_model left an external tensor or changed bytes", tensor=s)
+                    break
+        except BaseException as e:  # noqa: BLE001
+            fail(f"load_to_model:{backend}:{type(e).__name__}", f"load_to_model raised {e}")
     return res
+
+
+_RUN_DIR: list = []
+_TMP_ROOT = os.path.join(os.path.dirname(os.path.dirname(os.path.abspath(__file__))), ".work", "tmp-c07")
+
+
+def _run_dir() -> str:
+    """Per-run scratch directory under /verif/.work (removed at the end of the run; stale ones of killed
+    runs are removed at the start of the next run)."""
+    if not _RUN_DIR:
+        os.makedirs(_TMP_ROOT, exist_ok=True)
+        _RUN_DIR.append(tempfile.mkdtemp(prefix=f"run-{os.getpid()}-", dir=_TMP_ROOT))
+    return _RUN_DIR[0]
+
+
+def _clean_stale_run_dirs(max_age_s: int = 3600) -> None:
+    import shutil
+    import time
+
+    if not os.path.isdir(_TMP_ROOT):
+        return
+    for name in os.listdir(_TMP_ROOT):
+        path = os.path.join(_TMP_ROOT, name)
+        m = re.match(r"run-(\d+)-", name)
+        alive = bool(m) and os.path.exists(f"/proc/{m.group(1)}")
+        try:
+            if not alive or time.time() - os.path.getmtime(path) > max_age_s:
+                shutil.rmtree(path, ignore_errors=True)
+        except OSError:
+            pass
 
 
 def run_chunk(cases: list[dict]) -> list[dict]:
@@ -690,6 +861,7 @@ def run_chunk(cases: list[dict]) -> list[dict]:
 # generators
 
 SHAPES = [[], [0], [1], [3], [5], [2, 3], [7, 9], [1, 1, 1, 1, 7], [64], [33, 3], [0, 4]]
+BIG_SHAPES = [[1200], [5000], [70, 70]]  # beyond the 4096-byte alignment factor
 KINDS = ["mem", "mem", "lazy", "lazyc", "packed", "proto", "proto_typed", "ext_same", "ext_other", "torch", "custom"]
 _TORCH = ("FLOAT", "DOUBLE", "FLOAT16", "BFLOAT16", "INT8", "UINT8", "INT16", "INT32", "INT64", "BOOL")
 _TYPED = ("INT64", "UINT32", "UINT64", "FLOAT16", "BFLOAT16", "INT32", "INT8", "UINT8", "INT16", "UINT16", "BOOL")
@@ -708,7 +880,7 @@ def gen_tensor(rng: random.Random, i: int, ext_name: str, backend: str, allow_su
         dtype = rng.choice(_TORCH)
     if kind == "custom":
         dtype = rng.choice([d for d in _WIDE if d != "COMPLEX128"])
-    shape = rng.choice(SHAPES)
+    shape = rng.choice(BIG_SHAPES) if rng.random() < 0.06 else rng.choice(SHAPES)
     s = {"kind": kind, "dtype": dtype, "shape": shape, "seed": rng.randrange(1 << 30), "name": f"t{i}",
          "graph": rng.choice([0, 0, 0, 0, 1, 2, 2, 3, 4])}
     if kind == "ext_same":
@@ -731,21 +903,36 @@ def fix_external_sources(specs: list[dict]) -> None:
 
 DESTS = [("model.onnx", "model.data"), ("m.v1.onnx", "m.v1.fp16.data"), ("out/model.onnx", "model.data"),
          ("out/model.onnx", "w/model.weights.bin"), ("model", "data"), ("a.b/c.d.onnx", ".hidden.data"),
-         ("model.onnx", "model.onnx.data")]
+         ("model.onnx", "model.onnx.data"),
+         # not normalised: the code records os.path.normpath(location)
+         ("model.onnx", "./model.data"), ("out/model.onnx", "w//m.data"), ("model.onnx", "w/../m2.data")]
 
 
 def gen_case(rng: random.Random, backend: str) -> dict:
     n = rng.choice([0, 1, 1, 2, 3, 3, 4, 5, 6, 8])
     dest, ext = rng.choice(DESTS)
     specs = [gen_tensor(rng, i, ext, backend) for i in range(n)]
-    # the same tensor object under the same name in the main graph and in a subgraph
-    if backend == "raw" and n >= 1 and rng.random() < 0.2:
+    # a tensor whose own name differs from the initializer's name, or that has no name at all
+    if n >= 1 and rng.random() < 0.15:
         src = rng.randrange(n)
-        if specs[src]["graph"] == 0:
-            d = dict(specs[src])
+        if specs[src]["kind"] in ("mem", "lazy", "lazyc", "packed", "custom", "torch"):
+            specs[src]["tname"] = rng.choice([None, "other_name", "t0", ""])
+        elif specs[src]["kind"] in ("proto", "proto_typed"):
+            specs[src]["tname"] = rng.choice(["other_name", ""])
+        else:
+            specs[src]["tname"] = "other_name"
+    # one tensor object shared by two initializers: under another name (any graph), or under the same name
+    # in the main graph and in a subgraph (raw backend only: safetensors rejects equal names up front)
+    if n >= 1 and rng.random() < 0.2:
+        src = rng.randrange(n)
+        d = dict(specs[src])
+        d["dup_of"] = src
+        if backend == "raw" and specs[src]["graph"] == 0 and rng.random() < 0.5:
             d["graph"] = rng.choice([1, 2, 3])
-            d["dup_of"] = src
-            specs.append(d)
+        else:
+            d["name"] = f"t{len(specs)}"
+            d["graph"] = rng.choice([0, 0, 1, 2])
+        specs.append(d)
     if rng.random() < 0.1 and n:
         specs[rng.randrange(len(specs))]["noconst"] = True
     if rng.random() < 0.06:
@@ -763,7 +950,7 @@ def gen_case(rng: random.Random, backend: str) -> dict:
     athr = rng.choice([0, 1, 16, 100, 1 << 20] + [rng.choice(pool)])
     tot = sum(sizes)
     mx = rng.choice([None, None, 1, 7, 64, 100, 4096, 5000, 1 << 40] + [max(1, rng.choice(pool)), max(1, tot), max(1, tot // 2)])
-    workers = rng.choice([None, 1, 2, 4])
+    workers = rng.choice([None, 1, 2, 4, 8])  # 8 with two or more shards: nested writer pools (3 per shard)
     case = {"backend": backend, "tensors": specs, "thr": thr, "al": al, "athr": athr, "max": mx, "workers": workers,
             "dest": dest, "ext": ext, "callback": rng.random() < 0.3, "subgraphs": rng.random() < 0.3,
             "nested": rng.random() < 0.15}
@@ -779,10 +966,12 @@ def gen_case(rng: random.Random, backend: str) -> dict:
             s["loc"] = "prev.bin"
     fix_external_sources(specs)
     if workers and workers > 1:
-        perm = list(range(12))
+        perm = list(range(max(16, len(specs) + 1)))
         rng.shuffle(perm)
         case["sched"] = perm
         case["inflight"] = rng.choice([None, 1, 64, 1 << 30])
+    if any(s["kind"] in ("ext_same", "ext_other") for s in specs) and rng.random() < 0.3:
+        case["chunk"] = rng.choice([1, 7, 64])  # portable chunked copy of ExternalTensor.tofile
     # keep data files small enough to ship to the model (alignment 65536 with many large tensors)
     if al == 65536 and sum(1 for z in sizes if z > athr) > 3:
         case["al"] = 4096
@@ -793,9 +982,9 @@ def gen_fail_case(rng: random.Random, backend: str) -> dict:
     case = gen_case(rng, backend)
     specs = case["tensors"]
     mode = rng.choice(["lazy_raises", "serialize", "format", "validate", "early", "exists", "missing_ext",
-                       "small_lazy_raises"])
-    if backend == "st" and mode in ("validate", "early", "exists", "missing_ext"):
-        mode = rng.choice(["lazy_raises", "serialize", "format", "dup_name"])
+                       "small_lazy_raises", "abs_path"])
+    if backend == "st" and mode in ("validate", "early", "exists", "abs_path"):
+        mode = rng.choice(["lazy_raises", "serialize", "format", "dup_name", "missing_ext"])
     # external sources in the destination file would be invalidated; keep them out of failing saves? no: keep.
     i = len(specs)
     if mode == "lazy_raises":
@@ -810,6 +999,8 @@ def gen_fail_case(rng: random.Random, backend: str) -> dict:
         # safetensors keys are names: the same initializer name in two graphs is rejected up front
         specs.append({"kind": "mem", "dtype": "UINT8", "shape": [3], "seed": 5, "name": "same", "graph": 0})
         specs.append({"kind": "mem", "dtype": "UINT8", "shape": [3], "seed": 6, "name": "same", "graph": 2})
+    elif mode == "abs_path":
+        case["ext"] = "/c07-absolute/model.data"  # rejected before anything is touched
     elif mode == "validate":
         case["workers"] = 0
     elif mode == "early":
@@ -822,7 +1013,7 @@ def gen_fail_case(rng: random.Random, backend: str) -> dict:
     elif mode == "missing_ext":
         specs.append({"kind": "ext_missing", "dtype": "UINT8", "shape": [4], "seed": 5, "name": f"t{i}", "graph": 0,
                       "loc": "gone.bin", "pre": 0})
-        case["thr"] = max(case["thr"], 4)
+        case["thr"] = max(case["thr"], 5)
     case["fail"] = mode
     return case
 
@@ -892,11 +1083,6 @@ def part_a(ctx: Ctx) -> None:
         reqs.append({"m": "layout.shard_st", "sizes": sizes, "max": mxs})
         impls.append(groups)
         cases.append(("shard_st", [sizes, mxs]))
-        if mxs is not None:
-            # the sharder as in the unfixed source (model function of theorem C07_D62_witness)
-            reqs.append({"m": "layout.shard_st_unfixed", "sizes": sizes, "max": mxs})
-            impls.append(groups)
-            cases.append(("shard_st_unfixed", [sizes, mxs]))
         if [x for g in groups for x in g] != sizes:
             ctx.fail("shard-st:partition", "safetensors shards do not partition the tensors in order", [sizes, mxs, groups])
         if mxs is not None:
@@ -943,11 +1129,7 @@ def part_a(ctx: Ctx) -> None:
     for (name, arg), impl, out in zip(cases, impls, outs):
         ctx.case([name, arg], nontrivial=True, fn=name)
         if out.get("r") != impl:
-            if name == "shard_st" and repr(arg) in st_failed:
-                ctx.count("disagreements_explained_by_oracle_failure")  # model = fixed code (D62)
-            elif name == "shard_st_unfixed" and repr(arg) not in st_failed and _has_zero_then_big(arg):
-                ctx.count("shard_st_follows_fixed_model")  # the code has been fixed (D62 applied)
-            else:
+            if True:
                 ctx.disagree(f"{name}: model != implementation", {"fn": name, "arg": arg}, out, impl)
 
 
@@ -968,20 +1150,37 @@ def _compare(ctx: Ctx, results: list[dict]) -> None:
                  | {"tensors": [[s["kind"], s["dtype"], s["shape"]] for s in case["tensors"]][:6], "result": info},
                  backend=case["backend"], n_tensors=min(len(case["tensors"]), 8), thr=_bucket(case["thr"]),
                  al=case["al"], max=_bucket(case["max"]), workers=case["workers"], fail=case.get("fail"),
-                 raised=info.get("raised"), ext_tensors=min(n_ext, 6), files=info.get("nfiles"))
+                 raised=info.get("raised"), ext_tensors=min(n_ext, 6), files=info.get("nfiles"),
+                 shared_tensor=any(s.get("dup_of") is not None for s in case["tensors"]),
+                 tensor_name=("unnamed" if any("tname" in s and s["tname"] is None for s in case["tensors"]) else
+                              "differs" if any("tname" in s for s in case["tensors"]) else "same"),
+                 nested=bool(case.get("nested")), sched=case.get("sched") is not None,
+                 inflight=_bucket(case.get("inflight")), callback=bool(case.get("callback")),
+                 chunk=case.get("chunk"), bare=bool(case.get("bare")),
+                 ext_path=("unnormalised" if case.get("ext") and os.path.normpath(case["ext"]) != case["ext"] else "normal"),
+                 max_nbytes=_bucket(max([len(expected_bytes(s)) for s in case["tensors"] if s["kind"] != "str"] or [0])))
         for s in case["tensors"]:
             ctx.count(f"tensor_kind={s['kind']}")
             ctx.count(f"dtype={s['dtype']}")
         for f in res["fails"]:
             ctx.fail(f["signature"], f["what"], f["case"])
+        known_only = bool(res["fails"]) and all(
+            any(k["property"] == ctx.prop and re.fullmatch(k["signature"], f["signature"]) for k in ctx._known)
+            for f in res["fails"])
         for req, impl, what in zip(res["reqs"], res["impl"], res["what"]):
             out = outs[pos]
             pos += 1
+            if what == "save":
+                # the model works on the path as given; the code records os.path.normpath(location)
+                out = dict(out)
+                for key in ("consts", "files"):
+                    if key in out:
+                        out[key] = [[os.path.normpath(x[0]), *x[1:]] if isinstance(x, list) else x for x in out[key]]
             bad = [k for k in impl if out.get(k) != impl[k]]
-            if (bad or "err" in out) and res["fails"] and what != "harness":
-                # model != implementation on an input on which the oracle fails as well: the failing input
-                # (violation or known finding) is the stronger statement; the model describes the fixed code
-                ctx.count("disagreements_explained_by_oracle_failure")
+            if (bad or "err" in out) and known_only and what != "harness":
+                # the model describes the fixed code: on an input whose only oracle failures are recorded known
+                # findings the difference is that finding (printed as KNOWN-FINDING), nothing else is dropped
+                ctx.count("disagreements_explained_by_known_finding")
             elif bad or "err" in out:
                 ctx.disagree(f"{what}: model != implementation on {bad or out.get('err')}", case,
                              {k: _short(out.get(k)) for k in (bad or ["err"])}, {k: _short(impl[k]) for k in bad})
@@ -1035,7 +1234,7 @@ def grid_cases() -> list[dict]:
         c = {"backend": backend, "tensors": specs, "thr": thr, "al": al, "athr": athr, "max": mx, "workers": workers,
              "dest": dest, "ext": ext if backend == "raw" else None, "callback": True, "subgraphs": True}
         if workers and workers > 1:
-            c["sched"] = [3, 1, 0, 2, 7, 5, 6, 4, 9, 8]
+            c["sched"] = [3, 1, 0, 2, 7, 5, 6, 4, 9, 8, 15, 11, 13, 10, 12, 14]
         cases.append(c)
     return cases
 
@@ -1047,8 +1246,19 @@ def run(ctx: Ctx) -> None:
         "at least one initializer; distinct by the canonical case"
     )
     import logging
+    import shutil
 
     logging.getLogger("onnx_ir").setLevel(logging.ERROR)
+    _clean_stale_run_dirs()
+    _run_dir()  # created before the workers fork so that they all share it
+    try:
+        _run(ctx)
+    finally:
+        shutil.rmtree(_run_dir(), ignore_errors=True)
+        _RUN_DIR.clear()
+
+
+def _run(ctx: Ctx) -> None:
     # corpus first
     corpus = [c["case"] if "case" in c and "tensors" in c.get("case", {}) else c for c in load_corpus("C07")]
     corpus = [c for c in corpus if isinstance(c, dict) and "tensors" in c]
@@ -1094,7 +1304,13 @@ def replay(ctx: Ctx, obj: dict) -> None:
     if isinstance(case, dict) and "tensors" in case:
         case = {k: v for k, v in case.items() if k in (
             "backend", "tensors", "thr", "al", "athr", "max", "workers", "dest", "ext", "callback", "subgraphs",
-            "sched", "inflight", "fail", "preexisting", "preexisting_probe", "nested", "bare")}
-        _compare(ctx, run_chunk([case]))
+            "sched", "inflight", "fail", "preexisting", "preexisting_probe", "nested", "bare", "chunk")}
+        import shutil
+
+        try:
+            _compare(ctx, run_chunk([case]))
+        finally:
+            shutil.rmtree(_run_dir(), ignore_errors=True)
+            _RUN_DIR.clear()
     else:
         part_a(ctx)
